@@ -110,6 +110,10 @@ Fixpoint nl_eqb (a b : list N) : bool := match a, b with [], [] => true | x :: a
     run.count(["wire-constants"], {"check": "labels, personas, nonce key layout, batch size of the Gallina model vs the harness's decoding tables", "cases": len(cases)})
     for i in badc:
         run.violation(f"the Gallina model's wire constant differs from the one the implementation's logs are decoded with: {what[i]}", {"kind": "wire-constant", "what": what[i], "term": cases[i]}, no_input=True)
+    # the released generators of LARGE parameter sets (party indices up to 511) are the documented chains too: a proof over 512 commitments made by 0.4.0
+    # uses them
+    from lib import gens_hi
+    gens_hi.check_high_parties(run, run.tier == "quick", "c19hi")
     return run.finish(
         "proof",
         "20 recorded 0.4.0 vectors over Ristretto (bits 1..64, aggregation 1..32, extension degrees 1..6, seeds, promises, two contexts, capacity = or 2x): commitments, proof bytes "
